@@ -284,11 +284,11 @@ theorem deadStep_shrinks (g : Cfg) (i : Nat) : Shrinks g (deadStep g i) := by
   simp only []
   split
   · exact Shrinks.refl g
-  · have h1 : Shrinks g (if (g.get i).nexts.isEmpty = true then g.cutIn i else g) := by
+  · have h1 : Shrinks g (if ((g.get i).nexts.isEmpty && !(g.get i).node.mightTerminate) = true then g.cutIn i else g) := by
       split
       · exact cutIn_shrinks g i
       · exact Shrinks.refl g
-    generalize (if (g.get i).nexts.isEmpty = true then g.cutIn i else g) = g1 at h1
+    generalize (if ((g.get i).nexts.isEmpty && !(g.get i).node.mightTerminate) = true then g.cutIn i else g) = g1 at h1
     split
     · exact Shrinks.trans h1 (cutOut_shrinks g1 i)
     · exact h1
@@ -299,7 +299,20 @@ theorem foldl_shrinks (f : Cfg → Nat → Cfg) (hf : ∀ g i, Shrinks g (f g i)
   | nil => exact Shrinks.refl g
   | cons x xs ih => exact Shrinks.trans (hf g x) (ih _)
 
-theorem deadCode_shrinks (g : Cfg) : Shrinks g (deadCode g) := foldl_shrinks deadStep deadStep_shrinks _ g
+theorem deadSweep_shrinks (g : Cfg) : Shrinks g (deadSweep g) := foldl_shrinks deadStep deadStep_shrinks _ g
+
+theorem deadLoop_shrinks (fuel : Nat) : ∀ g, Shrinks g (deadLoop fuel g) := by
+  induction fuel with
+  | zero => intro g; exact Shrinks.refl g
+  | succ n ih =>
+    intro g
+    unfold deadLoop
+    simp only []
+    split
+    · exact deadSweep_shrinks g
+    · exact Shrinks.trans (deadSweep_shrinks g) (ih _)
+
+theorem deadCode_shrinks (g : Cfg) : Shrinks g (deadCode g) := deadLoop_shrinks _ g
 
 theorem ecallStep_shrinks (g : Cfg) (i : Nat) : Shrinks g (ecallStep g i) := by
   unfold ecallStep; split
